@@ -13,35 +13,34 @@ def NoAnswer (f : SFlow) (o : Oracle) (d : Dir) : Prop := ∀ k, ((o f.name k d)
 
 theorem noAnswer_res (f : SFlow) (o : Oracle) : NoAnswer f o .res := fun _ => by simp
 
-theorem swalkList_nostop (rec : String → SRes) (h : ∀ t, (rec t).stop = none ∧ (rec t).pending = false) :
-    ∀ ts, (swalkList rec ts).stop = none ∧ (swalkList rec ts).pending = false
-  | [] => ⟨rfl, rfl⟩
+theorem swalkList_nostop (rec : String → SRes) (h : ∀ t, (rec t).stop = none) :
+    ∀ ts, (swalkList rec ts).stop = none
+  | [] => rfl
   | t :: ts => by
     have ht := h t
     have ih := swalkList_nostop rec h ts
     unfold swalkList
-    simp only [ht.1, Option.isSome_none, Bool.false_eq_true, if_false]
+    simp only [ht, Option.isSome_none, Bool.false_eq_true, if_false]
     split
     · exact ht
-    · exact ⟨ih.1, by simp [ht.2, ih.2]⟩
+    · exact ih
 
 theorem swalk_nostop {f : SFlow} {o : Oracle} {d : Dir} (h : NoAnswer f o d) :
-    ∀ fuel k, (swalk f o d fuel k).stop = none ∧ (swalk f o d fuel k).pending = false
-  | 0, _ => ⟨rfl, rfl⟩
+    ∀ fuel k, (swalk f o d fuel k).stop = none
+  | 0, _ => rfl
   | fuel + 1, k => by
     unfold swalk
     simp only [h k, Bool.false_eq_true, if_false]
     split
-    · exact ⟨rfl, rfl⟩
+    · rfl
     · exact swalkList_nostop _ (swalk_nostop h fuel) _
 
 /-- `Rel` for a reference result that did not stop is plain equality. -/
 theorem rel_nostop {hasRes : String → Bool} {m : WalkRes} {s : SRes} (h : Rel hasRes m s)
-    (hs : s.stop = none) (hp : s.pending = false) : m.trace = s.trace ∧ m.sc = none ∧ m.err = s.err := by
-  rcases h with h | ⟨htr, hrest⟩
-  · simp [hp] at h
-  · rw [hs] at hrest
-    exact ⟨htr, hrest.1, hrest.2⟩
+    (hs : s.stop = none) : m.trace = s.trace ∧ m.sc = none ∧ m.err = s.err := by
+  obtain ⟨htr, hrest⟩ := h
+  rw [hs] at hrest
+  exact ⟨htr, hrest.1, hrest.2⟩
 
 /-! ### one flow -/
 
@@ -64,7 +63,7 @@ theorem flow_rel {rep : FlowRep} {f : Flow} (hb : Built rep f) (o : Oracle) (d :
   cases hr : (f.dir d).root with
   | none =>
     simp only
-    split <;> exact Or.inr ⟨rfl, by simp⟩
+    split <;> exact ⟨rfl, by simp⟩
   | some r =>
     have hex := root_exists hinv hr
     simp only
@@ -75,13 +74,10 @@ theorem flow_rel {rep : FlowRep} {f : Flow} (hb : Built rep f) (o : Oracle) (d :
       simp at hex
     · exact rel_cons _ (walk_rel hb o d fuel r hex)
 
-/-- The response continuation of the answering flow: `executeFlow … (some k)` vs `scontinue`,
-    outside the classes F04a (continuation to a processor, no stream entry) and F04d (no outgoing
-    connection, stream entry present). -/
+/-- The response continuation of the answering flow: `executeFlow … (some k)` vs `scontinue`, for a
+    processor `k` that has a node in the response direction. -/
 theorem continue_eq {rep : FlowRep} {f : Flow} (hb : Built rep f) (o : Oracle) (fuel : Nat) (k : String)
-    (hm : mentioned rep.res k = true)
-    (ha : ∀ t c, firstConn rep.res k = some (.proc t c) → (entry rep.res).isSome = true)
-    (hd : firstConn rep.res k = none → entry rep.res = none) :
+    (hm : mentioned rep.res k = true) :
     let m := executeFlow f o .res fuel (some k)
     let s := scontinue (sflowOf rep) o fuel k
     m.trace = s.trace ∧ m.err = s.err := by
@@ -101,50 +97,36 @@ theorem continue_eq {rep : FlowRep} {f : Flow} (hb : Built rep f) (o : Oracle) (
       | true => rfl
       | false => rw [nodes_nil_find hdf k] at hn; simp at hn
     have hfe := first_edge hinv hn
-    simp only [hdef, Bool.not_true, Bool.false_eq_true, if_false]
-    cases hr : f.res.root with
-    | none =>
-      -- engine: `start == nil ⇒ return`
-      have hent : entry rep.res = none := by rw [← hinv.root, hr]
+    simp only [hdef, Bool.not_true, Bool.false_eq_true, if_false, Option.bind_some, hn]
+    cases hed : n.edges with
+    | nil =>
+      rw [hed] at hfe
+      have hfc : firstConn rep.res k = none := by
+        cases h : firstConn rep.res k with
+        | none => rfl
+        | some x => rw [h] at hfe; simp at hfe
+      simp [hfc]
+    | cons e es =>
+      rw [hed] at hfe
+      simp only [List.head?_cons, Option.map_some] at hfe
       cases hfc : firstConn rep.res k with
-      | none => simp
+      | none => rw [hfc] at hfe; simp at hfe
       | some dst =>
+        rw [hfc] at hfe
+        simp only [Option.map_some, Option.some.injEq] at hfe
         cases dst with
-        | stream sn sa => simp
-        | proc t c => have := ha t c hfc; simp [hent] at this
-    | some r =>
-      have hent : entry rep.res = some r := by rw [← hinv.root, hr]
-      simp only
-      cases hed : n.edges with
-      | nil =>
-        rw [hed] at hfe
-        have hfc : firstConn rep.res k = none := by
-          cases h : firstConn rep.res k with
-          | none => rfl
-          | some x => rw [h] at hfe; simp at hfe
-        have := hd hfc
-        simp [hent] at this
-      | cons e es =>
-        rw [hed] at hfe
-        simp only [List.head?_cons, Option.map_some] at hfe
-        cases hfc : firstConn rep.res k with
-        | none => rw [hfc] at hfe; simp at hfe
-        | some dst =>
-          rw [hfc] at hfe
-          simp only [Option.map_some, Option.some.injEq] at hfe
-          cases dst with
-          | stream sn sa =>
-            simp only [toTarget] at hfe
-            simp [hfe]
-          | proc t c =>
-            simp only [toTarget] at hfe
-            simp only [hfe]
-            have hex : (f.res.find t).isSome = true :=
-              edge_target_exists hinv hn (by rw [hed]; exact List.mem_cons_self ..) hfe
-            have hrel := walk_rel hb o .res fuel t hex
-            have hns := swalk_nostop (noAnswer_res (sflowOf rep) o) fuel t
-            have := rel_nostop hrel hns.1 hns.2
-            simp [this.1, this.2.2]
+        | stream sn sa =>
+          simp only [toTarget] at hfe
+          simp [hfe]
+        | proc t c =>
+          simp only [toTarget] at hfe
+          simp only [hfe]
+          have hex : (f.res.find t).isSome = true :=
+            edge_target_exists hinv hn (by rw [hed]; exact List.mem_cons_self ..) hfe
+          have hrel := walk_rel hb o .res fuel t hex
+          have hns := swalk_nostop (noAnswer_res (sflowOf rep) o) fuel t
+          have := rel_nostop hrel hns
+          simp [this.1, this.2.2]
 
 /-! ### lists of flows: the engine's flows paired with the representations they were built from -/
 
@@ -167,12 +149,12 @@ theorem runAll_eq (o : Oracle) (d : Dir) (fuel : Nat) : ∀ (l : Pairs), PairsOK
   | p :: l, hok, hq => by
     have ih := runAll_eq o d fuel l (pairsOK_tail hok) (fun q hq' => hq q (List.mem_cons_of_mem _ hq'))
     have hrel := flow_rel (hok p (List.mem_cons_self ..)) o d fuel
-    have hns : (sflow (sflowOf p.1) o d fuel).stop = none ∧ (sflow (sflowOf p.1) o d fuel).pending = false := by
+    have hns : (sflow (sflowOf p.1) o d fuel).stop = none := by
       unfold sflow
       split
-      · exact ⟨rfl, rfl⟩
+      · rfl
       · exact swalk_nostop (hq p (List.mem_cons_self ..)) fuel _
-    have heq := rel_nostop hrel hns.1 hns.2
+    have heq := rel_nostop hrel hns
     simp only [mflows, sflows, List.map_cons] at ih ⊢
     unfold runAll sall
     simp only [heq.2.2]
@@ -180,96 +162,71 @@ theorem runAll_eq (o : Oracle) (d : Dir) (fuel : Nat) : ∀ (l : Pairs), PairsOK
     · exact ⟨heq.1, heq.2.2⟩
     · simp [heq.1, ih.1, ih.2]
 
-/-- the user-flow loop of a request -/
+theorem sok_sflow (sf : SFlow) (o : Oracle) (d : Dir) (fuel : Nat) : SOk (sflow sf o d fuel) := by
+  unfold sflow
+  split
+  · simp [SOk]
+  · exact sok_swalk sf o d fuel _
+
+/-- the user-flow loop of a request (outside F04c: the answering processor has a response node) -/
 theorem userReq_eq (o : Oracle) (fuel : Nat) : ∀ (l : Pairs), PairsOK l →
-    (suserReq o fuel (sflows l)).2.2.2 = false →
     (∀ p ∈ l, ∀ k, (suserReq o fuel (sflows l)).2.1 = some (sflowOf p.1, k) → mentioned p.1.res k = true) →
     (runUserReq o fuel (mflows l)).1 = (suserReq o fuel (sflows l)).1 ∧
-    (runUserReq o fuel (mflows l)).2.2 = (suserReq o fuel (sflows l)).2.2.1 ∧
-    (runUserReq o fuel (mflows l)).2.1 = (suserReq o fuel (sflows l)).2.1.map (fun q => (q.1.name, q.2)) ∧
-    (∀ sf k, (suserReq o fuel (sflows l)).2.1 = some (sf, k) → ∃ p ∈ l, sf = sflowOf p.1)
-  | [], _, _, _ => ⟨rfl, rfl, rfl, by simp [sflows, suserReq]⟩
-  | p :: l, hok, hp, hm => by
+    (runUserReq o fuel (mflows l)).2.2 = (suserReq o fuel (sflows l)).2.2 ∧
+    (runUserReq o fuel (mflows l)).2.1 = (suserReq o fuel (sflows l)).2.1.map (fun q => (q.1.name, q.2))
+  | [], _, _ => ⟨rfl, rfl, rfl⟩
+  | p :: l, hok, hm => by
     have hb := hok p (List.mem_cons_self ..)
-    have hrel := flow_rel hb o .req fuel
-    have hsok : SOk (sflow (sflowOf p.1) o .req fuel) := by
-      unfold sflow
-      split
-      · exact ⟨by simp, by simp⟩
-      · have := sok_swalk (sflowOf p.1) o .req fuel
-        rename_i k _
-        exact ⟨(this k).1, (this k).2⟩
-    simp only [mflows, sflows, List.map_cons] at hp hm ⊢
+    obtain ⟨htr, hrest⟩ := flow_rel hb o .req fuel
+    have hsok := sok_sflow (sflowOf p.1) o .req fuel
+    simp only [mflows, sflows, List.map_cons] at hm ⊢
     unfold runUserReq suserReq at *
-    simp only at hp hm ⊢
+    simp only at hm ⊢
     cases herr : (sflow (sflowOf p.1) o .req fuel).err with
     | some er =>
       have hstop : (sflow (sflowOf p.1) o .req fuel).stop = none := by
         cases hs : (sflow (sflowOf p.1) o .req fuel).stop with
         | none => rfl
-        | some k' => have := hsok.2 (by simp [hs]); simp [herr] at this
-      have hpend : (sflow (sflowOf p.1) o .req fuel).pending = false := by
-        cases hpp : (sflow (sflowOf p.1) o .req fuel).pending with
-        | false => rfl
-        | true => have := hsok.1 hpp; simp [hstop] at this
-      have heq := rel_nostop hrel hstop hpend
-      have hme : (executeFlow p.2 o .req fuel none).err = some er := by rw [heq.2.2, herr]
-      simp [hme, heq.1]
+        | some k' => have := hsok (by simp [hs]); simp [herr] at this
+      rw [hstop] at hrest
+      have hme : (executeFlow p.2 o .req fuel none).err = some er := by rw [hrest.2, herr]
+      simp [hme, htr]
     | none =>
-      simp only [herr, Option.isSome_none, Bool.false_eq_true, if_false] at hp hm ⊢
+      simp only [herr, Option.isSome_none, Bool.false_eq_true, if_false] at hm ⊢
       cases hs : (sflow (sflowOf p.1) o .req fuel).stop with
       | some k =>
-        simp only [hs] at hp hm ⊢
+        simp only [hs] at hm ⊢
         have hmk : mentioned p.1.res k = true := hm p (List.mem_cons_self ..) k rfl
-        rcases hrel with hrel | ⟨htr, hrest⟩
-        · simp [hp] at hrel
-        · rw [hs] at hrest
-          simp only [hmk, if_true] at hrest
-          simp only [hrest.2, Option.isSome_none, Bool.false_eq_true, if_false, hrest.1]
-          refine ⟨htr, trivial, ?_, ?_⟩
-          · simp [sflowOf, hb.name]
-          · intro sf k' h
-            simp only [Option.some.injEq, Prod.mk.injEq] at h
-            exact ⟨p, List.mem_cons_self .., h.1.symm⟩
+        rw [hs] at hrest
+        simp only [hmk, if_true] at hrest
+        simp only [hrest.2, Option.isSome_none, Bool.false_eq_true, if_false, hrest.1]
+        refine ⟨htr, trivial, ?_⟩
+        simp [sflowOf, hb.name]
       | none =>
-        simp only [hs] at hp hm ⊢
-        have hpend : (sflow (sflowOf p.1) o .req fuel).pending = false := by
-          cases hpp : (sflow (sflowOf p.1) o .req fuel).pending with
-          | false => rfl
-          | true => have := hsok.1 hpp; simp [hs] at this
-        have heq := rel_nostop hrel hs hpend
-        have hme : (executeFlow p.2 o .req fuel none).err = none := by rw [heq.2.2, herr]
-        have ih := userReq_eq o fuel l (pairsOK_tail hok) hp (fun q hq => hm q (List.mem_cons_of_mem _ hq))
+        simp only [hs] at hm ⊢
+        rw [hs] at hrest
+        have hme : (executeFlow p.2 o .req fuel none).err = none := by rw [hrest.2, herr]
+        have ih := userReq_eq o fuel l (pairsOK_tail hok) (fun q hq => hm q (List.mem_cons_of_mem _ hq))
         simp only [mflows, sflows] at ih
-        simp only [hme, Option.isSome_none, Bool.false_eq_true, if_false, heq.2.1]
-        refine ⟨by rw [heq.1, ih.1], ih.2.1, ih.2.2.1, ?_⟩
-        intro sf k' h
-        obtain ⟨q, hq, hqe⟩ := ih.2.2.2 sf k' h
-        exact ⟨q, List.mem_cons_of_mem _ hq, hqe⟩
-
-/-- conditions under which the engine's response continuation agrees with the reference
-    (negations of the classes F04c, F04a, F04d) -/
-structure ContOK (rep : FlowRep) (k : String) : Prop where
-  m : mentioned rep.res k = true
-  a : ∀ t c, firstConn rep.res k = some (.proc t c) → (entry rep.res).isSome = true
-  d : firstConn rep.res k = none → entry rep.res = none
+        simp only [hme, Option.isSome_none, Bool.false_eq_true, if_false, hrest.1]
+        exact ⟨by rw [htr, ih.1], ih.2.1, ih.2.2⟩
 
 /-- one flow in the response phase, from its entry -/
 theorem flowRes_plain {rep : FlowRep} {f : Flow} (hb : Built rep f) (o : Oracle) (fuel : Nat) :
     (executeFlow f o .res fuel none).trace = (sflow (sflowOf rep) o .res fuel).trace ∧
     (executeFlow f o .res fuel none).err = (sflow (sflowOf rep) o .res fuel).err := by
   have hrel := flow_rel hb o .res fuel
-  have hns : (sflow (sflowOf rep) o .res fuel).stop = none ∧ (sflow (sflowOf rep) o .res fuel).pending = false := by
+  have hns : (sflow (sflowOf rep) o .res fuel).stop = none := by
     unfold sflow
     split
-    · exact ⟨rfl, rfl⟩
+    · rfl
     · exact swalk_nostop (noAnswer_res _ o) fuel _
-  have := rel_nostop hrel hns.1 hns.2
+  have := rel_nostop hrel hns
   exact ⟨this.1, this.2.2⟩
 
 /-- one user flow in the response phase after a short-circuit by `(fl, k)` -/
 theorem flowRes_sc {rep : FlowRep} {f : Flow} (hb : Built rep f) (o : Oracle) (fuel : Nat)
-    (fl k : String) (hC : fl = rep.name → ContOK rep k) :
+    (fl k : String) (hC : fl = rep.name → mentioned rep.res k = true) :
     let m := executeFlow f o .res fuel (if fl == f.name then some k else none)
     let s := if fl == (sflowOf rep).name then scontinue (sflowOf rep) o fuel k
              else sflow (sflowOf rep) o .res fuel
@@ -278,10 +235,9 @@ theorem flowRes_sc {rep : FlowRep} {f : Flow} (hb : Built rep f) (o : Oracle) (f
   have hn2 : (sflowOf rep).name = rep.name := rfl
   simp only [hn1, hn2]
   by_cases hfl : fl = rep.name
-  · have hc := hC hfl
-    have hbeq : (fl == rep.name) = true := by simpa using hfl
+  · have hbeq : (fl == rep.name) = true := by simpa using hfl
     simp only [hbeq, if_true]
-    exact continue_eq hb o fuel k hc.m hc.a hc.d
+    exact continue_eq hb o fuel k (hC hfl)
   · have hbeq : (fl == rep.name) = false := by simpa using hfl
     simp only [hbeq, Bool.false_eq_true, if_false]
     exact flowRes_plain hb o fuel
@@ -297,11 +253,11 @@ theorem step_combine (rm restm : WalkRes) (rs rests : SRes) (h1 : rm.trace = rs.
     (if rs.err.isSome then { rs with stop := none }
       else ({ trace := rs.trace ++ rests.trace, err := rests.err } : SRes)).err := by
   rw [h2]
-  split <;> simp [h1, h2, i1, i2]
+  split <;> simp [h1, i1, i2]
 
 /-- the user-flow loop of the response phase -/
 theorem userRes_eq (o : Oracle) (fuel : Nat) (sc : Option (String × String)) : ∀ (l : Pairs), PairsOK l →
-    (∀ p ∈ l, ∀ fl k, sc = some (fl, k) → fl = p.1.name → ContOK p.1 k) →
+    (∀ p ∈ l, ∀ fl k, sc = some (fl, k) → fl = p.1.name → mentioned p.1.res k = true) →
     (runUserRes o fuel sc (mflows l)).trace = (suserRes o fuel sc (sflows l)).trace ∧
     (runUserRes o fuel sc (mflows l)).err = (suserRes o fuel sc (sflows l)).err
   | [], _, _ => ⟨rfl, rfl⟩
@@ -328,7 +284,7 @@ theorem sflows_reverse (l : Pairs) : (sflows l).reverse = sflows l.reverse := by
 /-- `executeRes` vs the reference response phase -/
 theorem res_eq (o : Oracle) (fuel : Nat) (ps pu pf : Pairs) (hs : PairsOK ps) (hu : PairsOK pu) (hf : PairsOK pf)
     (sc : Option (String × String))
-    (hC : ∀ p ∈ pu, ∀ fl k, sc = some (fl, k) → fl = p.1.name → ContOK p.1 k) :
+    (hC : ∀ p ∈ pu, ∀ fl k, sc = some (fl, k) → fl = p.1.name → mentioned p.1.res k = true) :
     (executeRes ⟨mflows ps, mflows pu, mflows pf⟩ o fuel sc).trace =
       (sresponse ⟨sflows ps, sflows pu, sflows pf⟩ o fuel sc).1 ∧
     (executeRes ⟨mflows ps, mflows pu, mflows pf⟩ o fuel sc).err =
@@ -346,14 +302,13 @@ theorem res_eq (o : Oracle) (fuel : Nat) (ps pu pf : Pairs) (hs : PairsOK ps) (h
     · exact ⟨rfl, rfl⟩
     · exact ⟨rfl, rfl⟩
 
-/-- `executeReq` vs the reference request transaction, outside the classes of the findings
-    (the side conditions are only needed when the system start flows ran without error) -/
+/-- `executeReq` vs the reference request transaction, outside the class F04c (the side condition is
+    only needed when the system start flows ran without error) -/
 theorem req_eq (o : Oracle) (fuel : Nat) (ps pu pf : Pairs) (hs : PairsOK ps) (hu : PairsOK pu) (hf : PairsOK pf)
     (hqs : ∀ p ∈ ps, NoAnswer (sflowOf p.1) o .req) (hqf : ∀ p ∈ pf, NoAnswer (sflowOf p.1) o .req)
-    (hp : (sall o .req fuel (sflows ps)).err = none → (suserReq o fuel (sflows pu)).2.2.2 = false)
     (hC : (sall o .req fuel (sflows ps)).err = none →
           ∀ sf k, (suserReq o fuel (sflows pu)).2.1 = some (sf, k) →
-            ∀ p ∈ pu, p.1.name = sf.name → ContOK p.1 k) :
+            ∀ p ∈ pu, p.1.name = sf.name → mentioned p.1.res k = true) :
     (executeReq ⟨mflows ps, mflows pu, mflows pf⟩ o fuel).trace =
       (stxn ⟨sflows ps, sflows pu, sflows pf⟩ o fuel .req).trace ∧
     (executeReq ⟨mflows ps, mflows pu, mflows pf⟩ o fuel).err =
@@ -371,14 +326,14 @@ theorem req_eq (o : Oracle) (fuel : Nat) (ps pu pf : Pairs) (hs : PairsOK ps) (h
       | none => rfl
       | some e => simp [h] at hne
     have hC' := hC hnone
-    have hb := userReq_eq o fuel pu hu (hp hnone)
-      (fun p hpm k h => (hC' (sflowOf p.1) k h p hpm rfl).m)
+    have hb := userReq_eq o fuel pu hu
+      (fun p hpm k h => hC' (sflowOf p.1) k h p hpm rfl)
     rcases hm : runUserReq o fuel (mflows pu) with ⟨bt, msc, be⟩
-    rcases hss : suserReq o fuel (sflows pu) with ⟨st, ssc, se, sp⟩
+    rcases hss : suserReq o fuel (sflows pu) with ⟨st, ssc, se⟩
     rw [hm, hss] at hb
     rw [hss] at hC'
     simp only at hb hC' ⊢
-    obtain ⟨hb1, hb2, hb3, _⟩ := hb
+    obtain ⟨hb1, hb2, hb3⟩ := hb
     subst hb1 hb2 hb3
     rw [hc.1, hc.2]
     split
